@@ -8,6 +8,7 @@ import (
 	"os"
 	"os/exec"
 	"path/filepath"
+	"runtime"
 	"sort"
 	"strings"
 	"sync"
@@ -100,6 +101,23 @@ func c03Arm(p *Program) {
 				panic("prologue panic in " + id)
 			}
 			rec.Ev("params(%s){%s}", id, fmtParams(copyParams(c.Params)))
+			if bg, ok := rec.Extra["bg"].(*sync.WaitGroup); ok && isMain {
+				// stress mode: "background work" keeps a Copy() of the context beyond the request
+				// and touches it while other requests are served from the pooled contexts
+				c.Set("owner", id)
+				cp := c.Copy()
+				bg.Add(1)
+				go func() {
+					defer bg.Done()
+					for i := 0; i < 3; i++ {
+						cp.Set("bg-step", i)
+						if v, _ := cp.Get("owner"); v != id {
+							rec.Ev("copy-of-context-shows-foreign-data(%v)", v)
+						}
+						runtime.Gosched()
+					}
+				}()
+			}
 			if isMain {
 				c.WriteString(id + "{" + fmtParams(copyParams(c.Params)) + "}")
 			}
@@ -552,6 +570,10 @@ func runC03B(e *Env) {
 					i := lr.IntN(len(pool))
 					q := pool[i]
 					rec := NewRec()
+					var bg sync.WaitGroup
+					if k%4 == 0 {
+						rec.Extra = map[string]any{"bg": &bg}
+					}
 					// how many requests are inside ServeHTTP at once (atomics: the monitor must not race itself)
 					cur := atomic.AddInt64(&gauge, 1)
 					for {
@@ -562,6 +584,7 @@ func runC03B(e *Env) {
 					}
 					pv, panicked := catch(func() { router.ServeHTTP(rec, NewReq(q.Method, q.Path)) })
 					atomic.AddInt64(&gauge, -1)
+					bg.Wait() // the background copies are done before this request's recorder is read
 					atomic.AddInt64(&kindCount[i], 1)
 					if panicked {
 						if atomic.AddInt64(&bad, 1) == 1 {
@@ -690,7 +713,7 @@ func runC03(e *Env) {
 	logPrefix := filepath.Join(sub, "race")
 	cmd := exec.Command(raceExe, "child", "C03B", e.Tier)
 	cmd.Env = append(os.Environ(),
-		"GORACE=halt_on_error=0 log_path="+logPrefix,
+		"GORACE=halt_on_error=0 exitcode=0 log_path="+logPrefix, // exitcode=0: keep the child's own verdict as exit status; reports are read from the log
 		"VERIF_OUT="+sub,
 		fmt.Sprintf("VERIF_SEED=%d", e.Seed),
 		"GOTRACEBACK=all",
